@@ -96,7 +96,10 @@ impl<'c, Param, Yield, Return> Coroutine<'c, Param, Yield, Return> {
     /// This can only be done safely in coroutine.
     pub unsafe fn remaining_stack(&self) -> usize {
         let current_sp = psm::stack_pointer() as usize;
-        current_sp - self.stack_infos_ref().back().unwrap().stack_bottom
+        // the lowest page of a segment is its guard page, it is not usable stack
+        current_sp.saturating_sub(
+            self.stack_infos_ref().back().unwrap().stack_bottom + crate::common::page_size(),
+        )
     }
 
     /// Queries the current stack info of this coroutine.
